@@ -90,6 +90,7 @@ fn hist_cfg_for(seed: u64, m: &HashMap<String, String>) -> hist::HistCfg {
         descriptors: m.contains_key("descriptors"),
         walks: m.contains_key("walks"),
         early_reopen: m.contains_key("early-reopen"),
+        jitter: arg(m, "jitter", 0),
     }
 }
 
